@@ -64,7 +64,7 @@ theorem epsmatch_inside_trapezoid {lk : Lookup} (hlk : FourLetter lk) (t q : Lis
   have hk1 : 2 ≤ k ∧ 2 * k ≤ Biogo.Kmer.wordBits := by
     unfold Biogo.Kmer.minKmerLen at hk; unfold Biogo.Kmer.maxKmerLen at hk'; unfold Biogo.Kmer.wordBits; omega
   -- link 1: the filter
-  obtain ⟨_, hcomp⟩ := Biogo.Properties.C14.filter_complete hlk t q k n e off selfAlign hk hk' ht hq hthr he hoff
+  obtain ⟨_, hcomp⟩ := Biogo.Properties.C14.filter_complete hlk t q k n e off selfAlign hk hk' ht hthr he hoff
   obtain ⟨h, hh, hcov⟩ := hcomp hits hf a b hmatch hreq
   obtain ⟨h0, hh0, rfl⟩ := List.mem_map.mp hh
   simp only [covers, toSpec, Bool.and_eq_true] at hcov
@@ -80,7 +80,7 @@ theorem epsmatch_inside_trapezoid {lk : Lookup} (hlk : FourLetter lk) (t q : Lis
     omega
   have hwf := Biogo.Proofs.PalsChain.filter_hits_wf hlk _ (builtIndex lk k t)
     { minMatch := n, maxError := e, tubeOffset := off } q selfAlign false
-    (by rw [builtIndex_k]; omega) (by rw [builtIndex_k]; exact hk1.2) hq (by rw [builtIndex_k]; exact hqlen)
+    (by rw [Biogo.Properties.C14.rule_tie]; rfl) (by rw [builtIndex_k]; omega) (by rw [builtIndex_k]; exact hk1.2) (by rw [builtIndex_k]; exact hqlen)
     he hoff hits hf
   -- link 2: the merger
   have pre : Pre (mergerCfg lk t q k e off g selfAlign) sorted :=
@@ -150,7 +150,7 @@ theorem epsmatch_inside_trapezoid_strand {lk : Lookup} (hlk : FourLetter lk) (t 
   have hk1 : 2 ≤ k ∧ 2 * k ≤ Biogo.Kmer.wordBits := by
     unfold Biogo.Kmer.minKmerLen at hk; unfold Biogo.Kmer.maxKmerLen at hk'; unfold Biogo.Kmer.wordBits; omega
   -- link 1: the filter
-  have hcomp := Biogo.Properties.C14.filter_complete_strand hlk t q k n e off selfAlign complement hk hk' ht hq hthr he hoff
+  have hcomp := Biogo.Properties.C14.filter_complete_strand hlk t q k n e off selfAlign complement hk hk' ht hthr he hoff
   obtain ⟨h, hh, hcov⟩ := hcomp hits hf a b hmatch hreq
   obtain ⟨h0, hh0, rfl⟩ := List.mem_map.mp hh
   simp only [covers, toSpec, Bool.and_eq_true] at hcov
@@ -166,7 +166,7 @@ theorem epsmatch_inside_trapezoid_strand {lk : Lookup} (hlk : FourLetter lk) (t 
     omega
   have hwf := Biogo.Proofs.PalsChain.filter_hits_wf hlk _ (builtIndex lk k t)
     { minMatch := n, maxError := e, tubeOffset := off } q selfAlign complement
-    (by rw [builtIndex_k]; omega) (by rw [builtIndex_k]; exact hk1.2) hq (by rw [builtIndex_k]; exact hqlen)
+    (by rw [Biogo.Properties.C14.rule_tie]; rfl) (by rw [builtIndex_k]; omega) (by rw [builtIndex_k]; exact hk1.2) (by rw [builtIndex_k]; exact hqlen)
     he hoff hits hf
   -- link 2: the merger
   have pre : Pre (mergerCfgStrand lk t q k e off g selfAlign complement) sorted :=
